@@ -93,6 +93,8 @@ theorem C04_gen_readNext8Bits : BitStreamReader_ReadNext8Bits_translated = true 
       have hN := byteAt_lt data (p / 8 + 1)
       have hidx : ((p : Int) / 8).toNat = p / 8 := by omega
       have hidx2 : (((p : Int) + 8) / 8).toNat = p / 8 + 1 := by omega
+      -- `idx % 8` spelled on `size_t` (`Int`) is the same atom as `idx & 7` (`Nat`)
+      have hkI : (p : Int) % 8 = ((p % 8 : Nat) : Int) := by omega
       have hidx3 : (((p : Int) + 8) % 18446744073709551616 / 8).toNat = p / 8 + 1 := by
         have : bitSize data = 8 * data.size := rfl
         omega
@@ -107,7 +109,7 @@ theorem C04_gen_readNext8Bits : BitStreamReader_ReadNext8Bits_translated = true 
         · simp only [read8, if_neg he, bits8_aligned data p hz, BitStreamReader_ReadNext8Bits, memOf]
           unfold bitSize at *
           bits_num
-          simp only [hidx, hidx2, hidx3, hz]
+          simp only [hidx, hidx2, hidx3, hkI, hz]
           bits_norm
           clear hinv
           bits_close
@@ -126,6 +128,7 @@ theorem C04_gen_readNext8Bits : BitStreamReader_ReadNext8Bits_translated = true 
           have hk : p % 8 = 1 ∨ p % 8 = 2 ∨ p % 8 = 3 ∨ p % 8 = 4 ∨ p % 8 = 5 ∨ p % 8 = 6 ∨ p % 8 = 7 := by omega
           rcases hk with hk | hk | hk | hk | hk | hk | hk <;>
           · bits_num
+            try simp only [hkI]
             simp only [hk] at hreg ⊢
             try simp only [Int.cast_ofNat_Int]
             bits_num
